@@ -2,9 +2,11 @@
 // Unit core: blocktree.rs + unstable_blocks.rs + state.rs + lib.rs guards + heartbeat.rs request/response handling
 // + get_block_headers.rs + get_utxos.rs/get_balance.rs walks, all in one Verus crate so that callers are checked
 // against the callee contracts that are proved in the same run.
+#![feature(allocator_api)]
 use vstd::prelude::*;
 verus! {
 //@include ../frag/prelude_core.tpl
+//@include ../frag/nbh.tpl
 //@include ../frag/tree.tpl
 //@include ../frag/rows.tpl
 //@include ../frag/unstable.tpl
